@@ -4832,27 +4832,33 @@ class CubicBezier(Curve):
         """
         local_extremizers = [0, 1]
         a = [c[v] for c in self]
-        denom = a[0] - 3 * a[1] + 3 * a[2] - a[3]
-        if abs(denom) >= 1e-8:
-            delta = (
-                a[1] * a[1] - (a[0] + a[1]) * a[2] + a[2] * a[2] + (a[0] - a[1]) * a[3]
-            )
+        # The extremizers are the roots of the derivative: qa * t^2 + qb * t + qc = 0. They do not depend on
+        # the position of the curve, so the coefficients are taken relative to the first control value, and
+        # the roots are found without dividing a cancelled difference by a tiny leading coefficient.
+        p1 = a[1] - a[0]
+        p2 = a[2] - a[0]
+        p3 = a[3] - a[0]
+        qa = 3 * p1 - 3 * p2 + p3
+        qb = 2 * (p2 - 2 * p1)
+        qc = p1
+        roots = []
+        if qa == 0:
+            if qb != 0:
+                roots.append(-qc / qb)
+        else:
+            delta = qb * qb - 4 * qa * qc
             if delta >= 0:  # otherwise no local extrema
                 sqdelta = sqrt(delta)
-                tau = a[0] - 2 * a[1] + a[2]
-                r1 = (tau + sqdelta) / denom
-                r2 = (tau - sqdelta) / denom
-                if 0 < r1 < 1:
-                    local_extremizers.append(r1)
-                if 0 < r2 < 1:
-                    local_extremizers.append(r2)
-        else:
-            c = a[1] - a[0]
-            b = 2 * (a[0] - 2 * a[1] + a[2])
-            if b != 0:
-                r0 = -c / b
-                if 0 < r0 < 1:
-                    local_extremizers.append(r0)
+                if qb < 0:
+                    q = -(qb - sqdelta) / 2.0
+                else:
+                    q = -(qb + sqdelta) / 2.0
+                roots.append(q / qa)
+                if q != 0:
+                    roots.append(qc / q)
+        for r in roots:
+            if 0 < r < 1:
+                local_extremizers.append(r)
         local_extrema = [self.point(t)[v] for t in local_extremizers]
         return min(local_extrema), max(local_extrema)
 
